@@ -311,7 +311,7 @@ def _run(ctx):
         # every round is judged (agreement of the replicas + fold of the source prefix); on the unchanged
         # tree this stage can reproduce the open finding c19-pipelined-drop-on-leader-change
         for k in range(2):
-            stages.append(("multi-replica-%d" % k, "mem", ["-multi", "2", "-len", "40", "-mbatch", "200", "-n", "8200",
+            stages.append(("multi-replica-%d" % k, "mem", ["-multi", "2", "-len", "24", "-mbatch", "250", "-n", "6100",
                                                           "-seed", str(ctx.seed * 10 + 8 + k)]))
         for k in range(3):
             stages.append(("pebble-random-%d" % k, "pebble", ["-random", "10", "-len", "50", "-seed", str(ctx.seed * 10 + 5 + k), "-n", "120", "-agedays", str([0, 15, 400][k])]))
